@@ -287,6 +287,10 @@ async fn c03_scenario(c: C03Case) -> FlowObs {
 pub struct C04Case {
     pub writer_tl: bool,
     pub reader_tl: bool,
+    /// the late reader is BEST_EFFORT (only with a VOLATILE reader: nothing is demanded to arrive, the
+    /// pre-match history must still never be presented)
+    #[serde(default)]
+    pub reader_best_effort: bool,
     pub keep_last: Option<u8>,
     pub frag: u32,
     pub pre: Vec<(u8, u16)>,
@@ -298,16 +302,19 @@ pub fn c04_strategy() -> BoxedStrategy<C04Case> {
     (
         any::<bool>(),
         any::<bool>(),
+        prop::bool::weighted(0.3),
         prop::option::weighted(0.6, 1u8..4),
         prop_oneof![Just(64u32), Just(1344)],
-        prop::collection::vec((0u8..3, 0u16..300), 0..10),
-        prop::collection::vec((0u8..3, 0u16..300), 0..5),
+        // pre entries: (instance, payload length); length 270..279 = dispose the instance, 280..299 = unregister it
+        prop::collection::vec((0u8..3, prop_oneof![8 => 0u16..270, 1 => 270u16..280, 2 => 280u16..300]), 0..10),
+        prop::collection::vec((0u8..3, 0u16..270), 0..5),
         tape_strategy(40),
     )
-        .prop_map(|(writer_tl, reader_tl, keep_last, frag, pre, post, tape)| C04Case {
+        .prop_map(|(writer_tl, reader_tl, be, keep_last, frag, pre, post, tape)| C04Case {
             writer_tl,
             // a TRANSIENT_LOCAL reader is incompatible with a VOLATILE writer
             reader_tl: reader_tl && writer_tl,
+            reader_best_effort: be && !(reader_tl && writer_tl),
             keep_last,
             frag,
             pre,
@@ -324,7 +331,19 @@ async fn c04_scenario(c: C04Case) -> FlowObs {
     exec::sleep_ms(200).await;
     let mut seq = 0;
     let mut pre_ok: Vec<(u8, u32)> = vec![];
+    // instances that were disposed or unregistered before the reader existed (pre entries with len >= 270):
+    // how such a notification shares the KEEP_LAST depth with data samples is not stated, so for these
+    // instances only the upper bound (nothing beyond the last depth data samples) is demanded
+    let mut lifecycle_insts: BTreeSet<u8> = BTreeSet::new();
     for (inst, len) in &c.pre {
+        if *len >= 270 {
+            let key = KeyedData { id: *inst, seq: 0, blob: vec![] };
+            let done = if *len >= 280 { ws.writer.unregister_instance(key, None).await.is_ok() } else { ws.writer.dispose(key, None).await.is_ok() };
+            if done {
+                lifecycle_insts.insert(*inst);
+            }
+            continue;
+        }
         seq += 1;
         if ws.writer.write(KeyedData { id: *inst, seq, blob: blob_for(seq, *len as usize) }, None).await.is_ok() {
             pre_ok.push((*inst, seq));
@@ -336,7 +355,7 @@ async fn c04_scenario(c: C04Case) -> FlowObs {
         w.net.tape = c.tape.iter().copied().collect();
         w.net.attack_user = true;
     });
-    let r = make_reader(DataReaderQos { reliability: rel(true, 100), history: hist(None), durability: dura(c.reader_tl), ..Default::default() }).await;
+    let r = make_reader(DataReaderQos { reliability: rel(!c.reader_best_effort, 100), history: hist(None), durability: dura(c.reader_tl), ..Default::default() }).await;
     if !wait_matched(&ws.writer, 1).await {
         o.setup_error = Some("no match".into());
         return o;
@@ -390,6 +409,24 @@ async fn c04_scenario(c: C04Case) -> FlowObs {
     if !pre_ok.is_empty() {
         classes.insert("has_pre_samples".to_string());
     }
+    if !lifecycle_insts.is_empty() {
+        classes.insert("pre_history_with_dispose_or_unregister".to_string());
+    }
+    if c.reader_best_effort {
+        classes.insert("best_effort_volatile_reader".to_string());
+    }
+    // pre samples that a KEEP_LAST writer had already replaced when the reader was created
+    let replaced_before_match: BTreeSet<u32> = match c.keep_last {
+        None => BTreeSet::new(),
+        Some(d) => {
+            let mut per: BTreeMap<u8, Vec<u32>> = BTreeMap::new();
+            for (i, s) in &pre_ok {
+                per.entry(*i).or_default().push(*s);
+            }
+            per.values().flat_map(|v| v.iter().rev().skip(d as usize).copied()).collect()
+        }
+    };
+    let inst_of: BTreeMap<u32, u8> = pre_ok.iter().chain(post_ok.iter()).map(|(i, s)| (*s, *i)).collect();
     if with_world(|w| w.net.faults_applied > 0) {
         classes.insert("catch_up_faults".to_string());
     }
@@ -407,7 +444,7 @@ async fn c04_scenario(c: C04Case) -> FlowObs {
                     }
                 }
                 // samples replaced meanwhile by post writes need not be there
-                let must: Vec<u32> = retained.iter().filter(|s| pre_set.contains(s) && !now_have.contains(s)).copied().collect();
+                let must: Vec<u32> = retained.iter().filter(|s| pre_set.contains(s) && !now_have.contains(s) && !lifecycle_insts.contains(&inst_of[*s])).copied().collect();
                 if !must.is_empty() {
                     o.verdict = Some((
                         "C04:historical-data-wait-returned-early".into(),
@@ -419,8 +456,8 @@ async fn c04_scenario(c: C04Case) -> FlowObs {
         }
         take_all(&r.reader, &mut got).await;
         let have: BTreeSet<u32> = got.iter().map(|g| g.1).collect();
-        let expected: BTreeSet<u32> = if c.reader_tl { retained.clone() } else { retained.iter().filter(|s| !pre_set.contains(s)).copied().collect() };
-        if (expected.iter().all(|s| have.contains(s)) && waited >= 1000 && hist_wait.is_done()) || waited >= 30_000 {
+        let expected: BTreeSet<u32> = if c.reader_tl { retained.iter().filter(|s| !(pre_set.contains(s) && lifecycle_insts.contains(&inst_of[*s]))).copied().collect() } else { retained.iter().filter(|s| !pre_set.contains(s)).copied().collect() };
+        if ((c.reader_best_effort || expected.iter().all(|s| have.contains(s))) && waited >= 1000 && hist_wait.is_done()) || waited >= 30_000 {
             break;
         }
         exec::sleep_ms(100).await;
@@ -438,8 +475,21 @@ async fn c04_scenario(c: C04Case) -> FlowObs {
             }
         }
         if o.verdict.is_none() {
+            let stale: Vec<u32> = have.iter().filter(|s| replaced_before_match.contains(s)).copied().collect();
+            if !stale.is_empty() {
+                o.verdict = Some((
+                    "C04:replaced-history-presented".into(),
+                    format!("late reader presented seqs {stale:?}, which the KEEP_LAST({}) writer had already replaced by newer samples of their instances before the reader was created", c.keep_last.unwrap_or(0)),
+                ));
+            }
+        }
+        if o.verdict.is_none() {
             let expected: Vec<u32> = if c.reader_tl { retained.iter().copied().collect() } else { retained.iter().filter(|s| !pre_set.contains(s)).copied().collect() };
-            let missing: Vec<u32> = expected.iter().filter(|s| !have.contains(s)).copied().collect();
+            let missing: Vec<u32> = if c.reader_best_effort {
+                vec![] // best effort under a fault tape: nothing is demanded to arrive
+            } else {
+                expected.iter().filter(|s| !have.contains(s) && !(pre_set.contains(s) && lifecycle_insts.contains(&inst_of[*s]))).copied().collect()
+            };
             if !missing.is_empty() {
                 let only_pre = missing.iter().all(|s| pre_set.contains(s));
                 o.verdict = Some((
@@ -763,16 +813,23 @@ pub struct C26Case {
     /// 0: "level = %0", 1: "level <= %0", 2: "color = %0", 3: "color <= %0"
     pub expr: u8,
     pub param: i8,
+    /// integer members and parameter are offset by BASES[base]: neighbouring values far from zero (an
+    /// implementation comparing through a narrower or floating type merges them)
+    #[serde(default)]
+    pub base: u8,
     pub samples: Vec<(u8, i8)>,
     /// grouping tape: how consecutive DATA datagrams are coalesced into one RTPS message
     pub tape: Vec<u16>,
 }
 
 pub fn c26_strategy() -> BoxedStrategy<C26Case> {
-    (0u8..4, -3i8..4, prop::collection::vec((0u8..3, -4i8..5), 3..30), prop::collection::vec(any::<u16>(), 0..40))
-        .prop_map(|(expr, param, samples, tape)| C26Case { expr, param, samples, tape })
+    (0u8..4, -3i8..4, prop_oneof![3 => Just(0u8), 2 => 1u8..(BASES.len() as u8)], prop::collection::vec((0u8..3, -4i8..5), 3..30), prop::collection::vec(any::<u16>(), 0..40))
+        .prop_map(|(expr, param, base, samples, tape)| C26Case { expr, param, base, samples, tape })
         .boxed()
 }
+
+const BASES: [i32; 7] = [0, 1 << 24, (1 << 24) + 1, i32::MAX - 10, i32::MIN + 10, 1_000_000_007, -(1 << 24) - 3];
+
 
 fn color_of(v: i8) -> String {
     // strings ordered like the integers: "c0".."c9" around the parameter
@@ -792,8 +849,8 @@ async fn c26_scenario(c: C26Case) -> FlowObs {
     let pr = f.create_participant(0, QosKind::Default, NO_LISTENER, NO_STATUS).await.unwrap();
     let tr = pr.create_topic::<Filterable>("F", "Filterable", QosKind::Default, NO_LISTENER, NO_STATUS).await.unwrap();
     let (expr, param) = match c.expr {
-        0 => ("level = %0".to_string(), c.param.to_string()),
-        1 => ("level <= %0".to_string(), c.param.to_string()),
+        0 => ("level = %0".to_string(), (BASES[c.base as usize % BASES.len()] + c.param as i32).to_string()),
+        1 => ("level <= %0".to_string(), (BASES[c.base as usize % BASES.len()] + c.param as i32).to_string()),
         2 => ("color = %0".to_string(), color_of(c.param)),
         _ => ("color <= %0".to_string(), color_of(c.param)),
     };
@@ -834,7 +891,7 @@ async fn c26_scenario(c: C26Case) -> FlowObs {
     let mut seq = 0;
     for (inst, level) in &c.samples {
         seq += 1;
-        let s = Filterable { id: *inst, level: *level as i32, color: color_of(*level), seq };
+        let s = Filterable { id: *inst, level: BASES[c.base as usize % BASES.len()] + *level as i32, color: color_of(*level), seq };
         if writer.write(s, None).await.is_err() {
             o.setup_error = Some("write failed".into());
             return o;
@@ -954,7 +1011,7 @@ pub fn main(ctx: &Ctx) {
                 max_shrink_iters: 200,
                 limits,
                 meta: Meta {
-                    rule: "writer TRANSIENT_LOCAL or VOLATILE with KEEP_LAST d or KEEP_ALL writes 0-9 samples over 3 instances, then a late reliable reader (TRANSIENT_LOCAL or VOLATILE) is created in a new participant, catch-up traffic under a fault tape, wait_for_historical_data spawned, 0-4 writes after the writer reported the match; oracle: TL reader presents the retained history (last d per instance) and all later samples, wait_for_historical_data completes and not before the retained history is available, VOLATILE reader never presents a pre-match sample; non-trivial = at least one sample was written before the reader existed; distinct = hash of the case",
+                    rule: "writer TRANSIENT_LOCAL or VOLATILE with KEEP_LAST d or KEEP_ALL writes 0-9 samples over 3 instances (occasionally disposing or unregistering an instance in between), then a late reliable reader (TRANSIENT_LOCAL or VOLATILE) is created in a new participant, catch-up traffic under a fault tape, wait_for_historical_data spawned, 0-4 writes after the writer reported the match; oracle: TL reader presents the retained history (last d per instance) and all later samples, wait_for_historical_data completes and not before the retained history is available, VOLATILE reader never presents a pre-match sample, and no reader presents a sample that the KEEP_LAST writer had already replaced before the reader was created (for instances disposed/unregistered before the match only this upper bound is demanded); non-trivial = at least one sample was written before the reader existed; distinct = hash of the case",
                     assumptions,
                     nontrivial_floor: 100,
                 },
@@ -999,7 +1056,7 @@ pub fn main(ctx: &Ctx) {
                 max_shrink_iters: 200,
                 limits,
                 meta: Meta {
-                    rule: "reader on a content-filtered topic with expression `member = %0` or `member <= %0` over an int32 or string member, parameter and 3-29 samples with member values around the parameter, consecutive DATA datagrams coalesced into one RTPS message of several submessages per a grouping tape; oracle: presented set == samples satisfying the predicate evaluated by the harness; non-trivial = some samples pass and some fail; distinct = hash of the case",
+                    rule: "reader on a content-filtered topic with expression `member = %0` or `member <= %0` over an int32 or string member, parameter and 3-29 samples with member values around the parameter (integers offset by 0, +-2^24(+1), 10^9+7 or to within 10 of i32::MIN/MAX), consecutive DATA datagrams coalesced into one RTPS message of several submessages per a grouping tape; oracle: presented set == samples satisfying the predicate evaluated by the harness; non-trivial = some samples pass and some fail; distinct = hash of the case",
                     assumptions,
                     nontrivial_floor: 100,
                 },
